@@ -130,3 +130,19 @@ func init() {
 		Quick:    tierCfg{Shards: 8, Checks: 150, EnumShards: 8, Procs: []int{4, 2, 8, 4}, Parallel: 8, TimeoutS: 1200, ReplayRepeat: 20},
 		Thorough: tierCfg{Shards: 8, Checks: 4000, EnumShards: 8, Procs: []int{4, 2, 8, 4}, Parallel: 8, TimeoutS: 7200, ReplayRepeat: 60}}
 }
+
+func init() {
+	tp := []int{4, 2, 8, 4}
+	specs["C13"] = propSpec{Level: "exploration",
+		Quick:    tierCfg{Shards: 8, Checks: 80, Procs: tp, Parallel: 8, TimeoutS: 1200, ReplayRepeat: 10},
+		Thorough: tierCfg{Shards: 8, Checks: 1500, Procs: tp, Parallel: 8, TimeoutS: 7200, ReplayRepeat: 30}}
+	specs["C14"] = propSpec{Level: "exploration",
+		Quick:    tierCfg{Shards: 8, Checks: 100, Procs: tp, Parallel: 8, TimeoutS: 1200, ReplayRepeat: 10},
+		Thorough: tierCfg{Shards: 8, Checks: 1500, Procs: tp, Parallel: 8, TimeoutS: 7200, ReplayRepeat: 30}}
+	specs["C15"] = propSpec{Level: "exploration",
+		Quick:    tierCfg{Shards: 8, Checks: 30, Procs: tp, Parallel: 8, TimeoutS: 1200, ReplayRepeat: 10},
+		Thorough: tierCfg{Shards: 8, Checks: 1000, Procs: tp, Parallel: 8, TimeoutS: 7200, ReplayRepeat: 30}}
+	specs["C20"] = propSpec{Level: "exploration",
+		Quick:    tierCfg{Shards: 8, Checks: 40, Procs: tp, Parallel: 8, TimeoutS: 1200, ReplayRepeat: 10},
+		Thorough: tierCfg{Shards: 8, Checks: 1500, Procs: tp, Parallel: 8, TimeoutS: 7200, ReplayRepeat: 30}}
+}
